@@ -65,6 +65,10 @@ def gen_case(rng, force_sym=None):
             vshape.append(rng.choice([3, 5, 7]) if rng.chance(0.1) else rng.choice([2, 4, 4, 6, 6]))
         else:
             vshape.append(rng.choice([2, 3, 5]))
+    if all(sym[a] != 0 and vshape[a] == 2 for a in range(3)):
+        # a reduced volume of one single cell cannot be allocated by fdtdx with or without symmetry (StopIteration in
+        # core/jax/sharding.py for a (1,1,1) volume) - not a statement of this property, so it is never generated
+        vshape[2] = 4
     objs = []
     for i in range(rng.randint(1, 5)):
         lo, hi, rels = [], [], []
